@@ -101,6 +101,10 @@ fn syllables(o: &LayoutOracle, reph_on: bool) -> Vec<Syl> {
             }
         }
     }
+    // an independent vowel typed as hasanta + sign (the rule no option switches off): same keys in both orders
+    for (v, name) in [("ু", "hasanta+u=উ"), ("া", "hasanta+aa=আ"), ("ি", "hasanta+i=ই"), ("ে", "hasanta+e=এ")] {
+        out.push(Syl { uni: vec![h, k(v)], pre: vec![], rest: vec![h, k(v)], desc: name.to_string() });
+    }
     for v in ["আ", "ই", "এ", "!", ",", "১"] {
         out.push(Syl { uni: vec![k(v)], pre: vec![], rest: vec![k(v)], desc: v.to_string() });
     }
